@@ -40,8 +40,12 @@ class C18(Monitor):
                 if waiting:
                     ctx.count("c18_grants_with_others_waiting")
                 jv = self.join.get(vid, (None, -1))[1]
+                if len({kk[1] for kk in qp.values() if kk[0] == key[0]}) > 1:
+                    ctx.count("c18_grants_at_a_station_with_two_queues")
                 for w in waiting:
                     jw = self.join.get(w, (None, -1))[1]
+                    if (k - min(jw, jv)) * ctx.dt >= 86400 and jw != jv:
+                        ctx.count("c18_overtake_opportunities_after_more_than_a_day_of_waiting")
                     if jw != jv:
                         ctx.count("c18_overtake_opportunities")
                     if jw < jv:
